@@ -10,7 +10,7 @@ use hc::serde_json::{self, Value};
 use hc::{Args, Out, Rng, Tier};
 use p2panda_encryption::crypto::x25519::{PublicKey, SecretKey};
 use p2panda_encryption::crypto::xeddsa::XSignature;
-use p2panda_encryption::key_bundle::{Lifetime, LongTermKeyBundle, OneTimeKeyBundle, OneTimePreKey, PreKey};
+use p2panda_encryption::key_bundle::{Lifetime, LongTermKeyBundle, OneTimeKeyBundle, OneTimePreKey, PreKey, latest_key_bundle};
 use p2panda_encryption::key_registry::{KeyRegistry, KeyRegistryError, KeyRegistryState};
 use p2panda_encryption::traits::{KeyBundle, PreKeyRegistry};
 use std::collections::HashMap;
@@ -57,6 +57,9 @@ impl BSpec {
     fn genuine(&self) -> bool {
         self.sig_by == self.ident && self.sig_msg == self.prekey
     }
+    fn life_at(&self, now: u64) -> bool {
+        self.nb < now && now < self.na
+    }
     fn valid_at(&self, now: u64) -> bool {
         self.nb < now && now < self.na && self.genuine()
     }
@@ -69,6 +72,14 @@ enum Op {
     QL(usize),
     QO(usize),
     Rx,
+    /// restore the member's long-term list from persistence (serde), nothing verified on the way in
+    SetL(usize, Vec<BSpec>),
+    /// the public `latest_key_bundle` on an arbitrary list
+    LatestOf(Vec<BSpec>),
+}
+
+fn list_tok(l: &[BSpec]) -> String {
+    if l.is_empty() { "-".into() } else { l.iter().map(|b| b.tok()).collect::<Vec<_>>().join(";") }
 }
 
 impl Op {
@@ -79,6 +90,8 @@ impl Op {
             Op::QL(id) => format!("ql{id}"),
             Op::QO(id) => format!("qo{id}"),
             Op::Rx => "rx".into(),
+            Op::SetL(id, l) => format!("sl{id}:{}", list_tok(l)),
+            Op::LatestOf(l) => format!("lk:{}", list_tok(l)),
         }
     }
 }
@@ -228,8 +241,10 @@ fn run_phase(keys: &mut Keys, reg: &Reg, shadow: &Shadow, ops: &[Op], base: u64,
             Op::QL(id) => {
                 let r = <KeyRegistry<usize> as PreKeyRegistry<usize, LongTermKeyBundle>>::key_bundle(reg.clone(), id);
                 let stored = sh.longterm.get(id).cloned().unwrap_or_default();
-                let best = stored.iter().filter(|b| b.valid_at(now)).map(|b| b.na).max();
-                if stored.iter().any(|b| !b.valid_at(now)) {
+                // the query path consults lifetimes only (signatures are checked when a bundle is added;
+                // a list restored from persistence is taken as it is)
+                let best = stored.iter().filter(|b| b.life_at(now)).map(|b| b.na).max();
+                if stored.iter().any(|b| !b.life_at(now)) {
                     sh.expired_while_stored = true;
                 }
                 let a = match r {
@@ -239,8 +254,9 @@ fn run_phase(keys: &mut Keys, reg: &Reg, shadow: &Shadow, ops: &[Op], base: u64,
                         match stored.iter().find(|b| b.prekey == pk) {
                             None => fails.push(("returned-unknown".into(), format!("op {n}: long-term query returned a bundle never accepted for member {id}"))),
                             Some(b) => {
-                                if !b.valid_at(now) {
-                                    fails.push(("returned-expired-longterm".into(), format!("op {n}: long-term bundle {} returned at {now}", b.tok())));
+                                if !b.life_at(now) {
+                                    let tag = if !(b.nb < now) { "returned-not-yet-valid-longterm" } else { "returned-expired-longterm" };
+                                    fails.push((tag.into(), format!("op {n}: long-term bundle {} returned at {now}", b.tok())));
                                 } else if Some(b.na) != best {
                                     fails.push(("not-latest".into(), format!("op {n}: returned {} but a valid bundle with not_after {best:?} is stored", b.tok())));
                                 }
@@ -300,6 +316,47 @@ fn run_phase(keys: &mut Keys, reg: &Reg, shadow: &Shadow, ops: &[Op], base: u64,
                 };
                 // expired bundles that were skipped are gone from the registry: nothing to track for
                 // soundness; drop them from the shadow when a valid one behind them was returned
+                answers.push(a);
+            }
+            Op::SetL(id, l) => {
+                // patch the serialised state and read it back (fields are private)
+                let mut v = serde_json::to_value(&reg).expect("registry to json");
+                let bundles: Vec<Value> = l.iter().map(|b| serde_json::to_value(keys.longterm(b, base)).unwrap()).collect();
+                v["longterm_bundles"][id.to_string()] = Value::Array(bundles);
+                reg = serde_json::from_value(v).expect("registry from json");
+                sh.longterm.insert(*id, l.clone());
+                stats.push("restore-longterm-list".into());
+                answers.push("ok".into());
+            }
+            Op::LatestOf(l) => {
+                let bundles: Vec<LongTermKeyBundle> = l.iter().map(|b| keys.longterm(b, base)).collect();
+                let got = latest_key_bundle(&bundles);
+                let best = l.iter().filter(|b| b.life_at(now)).map(|b| b.na).max();
+                let a = match got {
+                    Some(kb) => {
+                        let pk = keys.by_pub.get(&kb.signed_prekey().to_bytes()).copied().unwrap_or(0);
+                        match l.iter().find(|b| b.prekey == pk) {
+                            None => fails.push(("returned-unknown".into(), format!("op {n}: latest_key_bundle returned a bundle that is not in the list"))),
+                            Some(b) => {
+                                if !b.life_at(now) {
+                                    let tag = if !(b.nb < now) { "latest-not-yet-valid" } else { "latest-expired" };
+                                    fails.push((tag.into(), format!("op {n}: latest_key_bundle returned {} at {now}", b.tok())));
+                                } else if Some(b.na) != best {
+                                    fails.push(("not-latest".into(), format!("op {n}: latest_key_bundle returned {} but not_after {best:?} is available", b.tok())));
+                                }
+                            }
+                        }
+                        stats.push("lk-some".into());
+                        format!("b{pk}")
+                    }
+                    None => {
+                        if best.is_some() {
+                            fails.push(("valid-not-returned".into(), format!("op {n}: latest_key_bundle returned nothing although a bundle inside its lifetime is in the list")));
+                        }
+                        stats.push("lk-none".into());
+                        "-".into()
+                    }
+                };
                 answers.push(a);
             }
             Op::Rx => {
@@ -374,7 +431,30 @@ fn gen_case(rng: &mut Rng, d: u64, next_prekey: &mut usize) -> Case {
         p1.push(Op::Rx);
         p1.push(Op::QL(1));
     }
+    // a member whose long-term list comes from persistence: any mix, any order, nothing verified
+    let restored: Option<(usize, Vec<BSpec>)> = if rng.chance(1, 2) {
+        let id = 4;
+        let l: Vec<BSpec> = (0..rng.range(1, 5))
+            .map(|_| {
+                let prekey = *next_prekey;
+                *next_prekey += 1;
+                let (nbf, naf) = rand_lifetime(rng, d);
+                let bad = rng.chance(1, 5);
+                BSpec { ident: id, prekey, nb: nbf, na: naf, sig_by: if bad { 0 } else { id }, sig_msg: prekey, otk: None }
+            })
+            .collect();
+        p1.push(Op::SetL(id, l.clone()));
+        p1.push(Op::QL(id));
+        p1.push(Op::LatestOf(l.clone()));
+        Some((id, l))
+    } else {
+        None
+    };
     let mut p2: Vec<Op> = vec![];
+    if let Some((id, l)) = &restored {
+        p2.push(Op::QL(*id));
+        p2.push(Op::LatestOf(l.clone()));
+    }
     for x in &bundles {
         if rng.chance(1, 3) {
             p2.push(add(x)); // re-announce at the later time
@@ -444,6 +524,11 @@ fn run_batches(out: &mut Out, cases: Vec<Case>, d: u64, batch: usize) {
             if let Op::AddL(_, b) | Op::AddO(_, b) = op {
                 keys.longterm(b, 0);
                 keys.onetime(b, 0);
+            }
+            if let Op::SetL(_, l) | Op::LatestOf(l) = op {
+                for b in l {
+                    keys.longterm(b, 0);
+                }
             }
         }
     }
@@ -527,6 +612,71 @@ fn parse_bundle(t: &str) -> Option<BSpec> {
     })
 }
 
+fn parse_list(t: &str) -> Option<Vec<BSpec>> {
+    if t == "-" {
+        return Some(vec![]);
+    }
+    t.split(';').map(parse_bundle).collect()
+}
+
+/// Every sequence (so: every multiset in every order) of up to `maxlen` bundles drawn from the classes
+/// valid / valid with a later expiry / expired / not yet valid with the latest expiry of all / valid
+/// with a corrupted signature, as a restored long-term list and as a direct `latest_key_bundle` call.
+/// Single clock reading; a case that straddles a second boundary is repeated.
+fn exhaustive_lists(out: &mut Out, maxlen: usize) {
+    let classes: [(u64, u64, bool); 5] = [
+        (900, 5000, true),   // valid
+        (T1 - 1, 6000, true), // valid, later expiry (edge: not_before == now - 1)
+        (800, T1, true),     // expired (edge: not_after == now)
+        (T1, 7000, true),    // not yet valid (edge: not_before == now), latest expiry of all
+        (900, 6500, false),  // inside its lifetime, corrupted signature
+    ];
+    let mut keys = Keys::new();
+    let spec = |pos: usize, c: usize| {
+        let (nb, na, good) = classes[c];
+        let prekey = 900_000 + pos * 10 + c;
+        BSpec { ident: 5, prekey, nb, na, sig_by: if good { 5 } else { 0 }, sig_msg: prekey, otk: None }
+    };
+    for pos in 0..maxlen {
+        for c in 0..classes.len() {
+            keys.longterm(&spec(pos, c), 0);
+        }
+    }
+    for len in 0..=maxlen {
+        for code in 0..(classes.len() as u64).pow(len as u32) {
+            let mut c = code;
+            let l: Vec<BSpec> = (0..len)
+                .map(|pos| {
+                    let k = (c % classes.len() as u64) as usize;
+                    c /= classes.len() as u64;
+                    spec(pos, k)
+                })
+                .collect();
+            let ops = vec![Op::LatestOf(l.clone()), Op::SetL(5, l), Op::QL(5)];
+            loop {
+                let t = unix_now();
+                let base = t - T1;
+                let p = run_phase(&mut keys, &KeyRegistry::init(), &Shadow::default(), &ops, base, T1);
+                if unix_now() != t {
+                    out.count("exhaustive-list-retry(clock ticked)");
+                    continue;
+                }
+                let line = format!("t{T1} {}", ops.iter().map(|o| o.tok()).collect::<Vec<_>>().join(" "));
+                let answer = p.answers.join(" ");
+                let n = out.case(&line, &answer, p.shadow.expired_while_stored);
+                out.count("kind=exhaustive-restored-list");
+                for s in &p.stats {
+                    out.count(s);
+                }
+                for (tag, what) in &p.fails {
+                    out.oracle_fail(n, tag, what, &line, &answer);
+                }
+                break;
+            }
+        }
+    }
+}
+
 /// Replay: phases are the `t<now>` sections of the line; the real clock is waited for.
 fn replay(out: &mut Out, line: &str) {
     let mut phases: Vec<(u64, Vec<Op>)> = vec![];
@@ -547,6 +697,10 @@ fn replay(out: &mut Out, line: &str) {
             r.parse().ok().map(Op::QL)
         } else if let Some(r) = t.strip_prefix("qo") {
             r.parse().ok().map(Op::QO)
+        } else if let Some(r) = t.strip_prefix("sl") {
+            r.split_once(':').and_then(|(i, bs)| Some(Op::SetL(i.parse().ok()?, parse_list(bs)?)))
+        } else if let Some(r) = t.strip_prefix("lk:") {
+            parse_list(r).map(Op::LatestOf)
         } else if t == "rx" {
             Some(Op::Rx)
         } else {
@@ -624,13 +778,14 @@ fn main() {
         cases.push(gen_case(&mut rng, d, &mut next_prekey));
     }
     out.extra.insert("clock_gap_seconds".into(), d.into());
+    exhaustive_lists(&mut out, match args.tier { Tier::Quick => 4, _ => 5 });
     run_batches(&mut out, cases, d, batch);
     for bad in ["al1:1.2.3", "t", "qx1", "t1000 ao1:1.2.3.4.5.6", "ql"] {
         out.case(bad, "bad-op", false);
         out.count("kind=malformed-line");
     }
     out.finish(
-        "random registries for 1-2 members with 3-9 real signed bundles each (long-term and one-time): lifetimes already expired / not yet valid / valid at the first clock reading and expired at the second (edges not_before == now, not_after == now at both readings) / valid long with colliding not_after; corrupted signature bytes, signature by another identity, genuine signature over another pre-key, foreign identity key; adds in random order with duplicates, queries, remove_expired, then the real clock advances D seconds and bundles are re-announced, queried (one-time queries until empty) and expired ones removed. non-trivial = at a query the member had a stored bundle that was valid when added and is no longer valid",
+        "exhaustive: every sequence of up to 4 (thorough 5) long-term bundles over the classes valid / valid with later expiry / expired (not_after == now) / not yet valid (not_before == now) with the latest expiry of all / corrupted signature — as a registry state restored through serde (nothing verified on the way in) queried with key_bundle, and as a direct latest_key_bundle call; random: the same with random lifetimes at two clock readings; random registries for 1-2 members with 3-9 real signed bundles each (long-term and one-time): lifetimes already expired / not yet valid / valid at the first clock reading and expired at the second (edges not_before == now, not_after == now at both readings) / valid long with colliding not_after; corrupted signature bytes, signature by another identity, genuine signature over another pre-key, foreign identity key; adds in random order with duplicates, queries, remove_expired, then the real clock advances D seconds and bundles are re-announced, queried (one-time queries until empty) and expired ones removed. non-trivial = at a query the member had a stored bundle that was valid when added and is no longer valid",
         false,
     );
 }
